@@ -504,12 +504,19 @@ func (el *eventloop) msgTimeout() {
 			v.Error = codec.ErrMsgRequestTimeout
 			v.Done = true
 		}
+		// the timeout error is this request's reply: it completes the request in its place in the
+		// pipeline (a late backend reply finds the fragment done and is dropped)
 		msg.Error = codec.ErrMsgRequestTimeout
+		msg.RspBody = append(msg.RspBody[:0], codec.ErrMsgRequestTimeout.Bytes()...)
+		msg.FragDoneNumber = len(msg.Body)
+		msg.Done = true
 		if c == nil || !c.IsOpened() {
 			logging.Warnf("[%dm|%df][%dc] try to send request timeout but client already closed", frag.MsgId(), frag.Id, frag.OwnerFd())
 			continue
 		}
-		c.AsyncWrite(codec.ErrMsgRequestTimeout.Bytes(), nil)
+		if cc, ok := c.(*conn); ok {
+			el.flushClient(cc)
+		}
 		logging.Warnf("[%dm|%df][%dc] request timeout, consider raising config '[proxy]timeout=%d', send res: %s", frag.MsgId(), frag.Id, frag.OwnerFd(), el.engine.opts.RedisRequestTimeout, codec.ErrMsgRequestTimeout.ShortString())
 	}
 }
